@@ -7,6 +7,9 @@ ID = "C10"
 CASES = {"quick": 16000, "thorough": 400000}
 SOFT = 20
 HARD = 120
+# thorough tier: additionally a coverage-guided byte-level campaign (atheris) over six fixed grammars with
+# the same oracle inside the target; 8 processes, fresh empty corpora
+FUZZ = {"script": "tools/fuzz_c10.py", "runs": 400000, "procs": 8, "max_len": 64, "budget_s": 3000}
 RULE = ("case = (random acyclic grammar with epsilon rules / ambiguity / left+right recursion / multi-char "
         "terminals, start nonterminal, string of length <= 10 that is a yield, a single-edit mutant of a yield or "
         "a random string over the grammar's characters); oracle = naive fixpoint chart recogniser + own tree "
